@@ -128,9 +128,11 @@ def _acquire(ctx: Ctx, m: pf.Module, cls: ast.ClassDef, guards: List[af.Guarded]
     ctx.need(len(regs) == 1, f'{qn}: expected one waiter registration `{EV}.add(...)`, found {len(regs)}')
     R = regs[0]
     call = af.node_is_call(R, f'{EV}.add')
-    ctx.need(call is not None and len(call.args) == 1 and isinstance(call.args[0], ast.Tuple) and len(call.args[0].elts) == 2
-             and all(isinstance(e, ast.Name) for e in call.args[0].elts), f'{qn}: registered element is not a pair of names')
-    names = [e.id for e in call.args[0].elts]  # type: ignore[union-attr,attr-defined]
+    ctx.need(call is not None and len(call.args) == 1, f'{qn}: registration call shape not recognised')
+    reg_arg = pf.resolve_expr(fn, call.args[0])  # `entry = (n, event); events.add(entry)` is the same registration
+    ctx.need(isinstance(reg_arg, ast.Tuple) and len(reg_arg.elts) == 2
+             and all(isinstance(e, ast.Name) for e in reg_arg.elts), f'{qn}: registered element is not a pair of names')
+    names = [e.id for e in reg_arg.elts]  # type: ignore[union-attr,attr-defined]
     ctx.need(w in names, f'{qn}: registered element {names} does not carry the weight `{w}`')
     evname = [x for x in names if x != w][0]
     layout = ['weight' if x == w else 'event' for x in names]
